@@ -256,6 +256,26 @@ def handle (line : String) : String :=
       match n.toNat?, tyOfSexp t, chunks.mapM (fun c => match c with | .atom h => bytesOfHex h | _ => none) with
       | some n, some t, some cs => accAnswer n t cs
       | _, _, _ => "bad-op"
+    | "deg", [t, .atom h] =>
+      match tyOfSexp t, bytesOfHex h with
+      | some t, some bs => deAnswer (dec t bs)
+      | _, _ => "bad-op"
+    | "alloc", [.atom name, .atom h] =>
+      let ty : Option Ty := match name with
+        | "vec_u8" => some (.seq (.u .w8)) | "vec_u64" => some (.seq (.u .w64))
+        | "vec_u128" => some (.seq (.u .w128)) | "string" => some .str
+        | "vec_string" => some (.seq .str) | "vec_vec_u16" => some (.seq (.seq (.u .w16)))
+        | "vec_pair" => some (.seq (.tuple [.u .w8, .u .w32]))
+        | "pair" => some (.tuple [.seq (.u .w16), .str])
+        | "vec_opt" => some (.seq (.option (.u .w64)))
+        | "bytebuf" => some (.tuple [.u .w8, .seq (.u .w8)])
+        | _ => none
+      match ty, bytesOfHex h with
+      | some t, some bs =>
+        match dec t bs with
+        | .ok (_, r) => s!"ok consumed={bs.length - r.length}"
+        | .error e => "err " ++ e.name
+      | _, _ => "bad-op"
     | "hasty", [t, v] =>
       match tyOfSexp t, valOfSexp v with
       | some t, some v => if hasTy v t then "ok 1" else "ok 0"
